@@ -1,12 +1,13 @@
 /- Line-protocol driver: one request per line on stdin, one response per line on stdout.
    Imports only Mathlib-free model files. -/
 import Iodata.Drv.Conv
+import Iodata.Drv.Fmt
 import Iodata.Drv.Helpers
-import Iodata.Drv.Select
 import Iodata.Drv.Inputs
+import Iodata.Drv.Select
 
 def handlers : List (List String → Option String) :=
-  [Iodata.Drv.Conv.handle, Iodata.Drv.Helpers.handle, Iodata.Drv.Select.handle, Iodata.Drv.Inputs.handle]
+  [Iodata.Drv.Conv.handle, Iodata.Drv.Fmt.handle, Iodata.Drv.Helpers.handle, Iodata.Drv.Inputs.handle, Iodata.Drv.Select.handle]
 
 def respond (line : String) : String :=
   let ws := (line.splitOn " ").filter (· ≠ "")
